@@ -85,6 +85,7 @@ fn describe(tree: &Tree, bcfgs: &[BCfg], inj: &str) -> (Vec<(String, String)>, b
     let ch = chain(tree);
     let intrinsic = ch.iter().any(|i| { let b = &bcfgs[*i]; matches!(b.app, AppDir::Missing) || b.triple == 'o' || b.expect_success == b.pack_nonzero });
     let sources = tp + cp + un;
+    let (inj, outputs) = match inj.split_once('~') { Some((a, o)) => (a, Some(o)), None => (inj, None) };
     let (base_inj, flavour) = inj.split_once('@').unwrap_or((inj, "0"));
     let kind = base_inj.split(':').next().unwrap_or("-");
     let status = if kind == "z" { base_inj.split(':').nth(2).unwrap_or("7") } else { "-" };
@@ -117,6 +118,18 @@ fn describe(tree: &Tree, bcfgs: &[BCfg], inj: &str) -> (Vec<(String, String)>, b
         tags.push((s("fault_sel"), sels.join("+")));
         tags.push((s("fault_rules"), rules.len().to_string()));
         tags.push((s("fault_with_panic_step"), s(if sources > 0 { "1" } else { "0" })));
+    }
+    // the output script: what the selected commands print (pattern, size class, stream, alignment) and whether one of them is a
+    // command that is made to fail (then the bytes end up in a CommandError, i.e. in a panic message)
+    if let Some(orules) = outputs.and_then(parse_out_rules) {
+        let uniq = |mut v: Vec<String>| { v.sort(); v.dedup(); v.join("+") };
+        tags.push((s("out_pattern"), uniq(orules.iter().map(|r| s(match r.pat { 'a' => "ascii", '2' => "2-byte", '3' => "3-byte", '4' => "4-byte", 'm' => "mixed", _ => "not-utf8" })).collect())));
+        tags.push((s("out_size"), uniq(orules.iter().map(|r| s(match r.size { 0..=4000 => "<4K", 4001..=4200 => "~4K", 4201..=8000 => "4K-8K", 8001..=8400 => "~8K", 8401..=16300 => "8K-16K", 16301..=16383 => "just-below-16K", 16384 => "16K", 16385..=16500 => "just-above-16K", 16501..=65000 => "16K-64K", 65001..=66000 => "~64K", 66001..=1000000 => "64K-1M", _ => ">=1M" })).collect())));
+        tags.push((s("out_stream"), uniq(orules.iter().map(|r| s(match r.stream { 'o' => "stdout", 'e' => "stderr", _ => "both" })).collect())));
+        tags.push((s("out_shift"), uniq(orules.iter().map(|r| r.shift.to_string()).collect())));
+        // same kind word or a catch-all on either side: the failing command is (among) the ones that print the generated bytes
+        let on_failing = rules.iter().any(|f| orules.iter().any(|o| o.kind == f.kind || o.kind == "any" || (o.kind == "nr" && f.kind != "rm") || (o.kind == "lg" && (f.kind == "ln" || f.kind == "lf"))));
+        tags.push((s("out_on"), s(if on_failing { "failing-command" } else if rules.is_empty() && kind == "-" { "succeeding-commands-only" } else { "other-command-than-the-failing-one" })));
     }
     (tags, kind != "-" || sources > 0 || intrinsic)
 }
@@ -318,6 +331,81 @@ fn generate(tier: &str, seed: u64, emit: &mut dyn FnMut(Case)) {
             format!("{kind}.{sel}.{}", r.pick(&STATUSES))
         }).collect();
         push(&cfgs, &tree, format!("f:{}@{}", rules.join("+"), r.below(4)));
+    }
+    // 8. what the commands print as a dimension (`~<output script>`): each path on which a failing command becomes a panic message
+    //    (CommandError in `panic!`), with a container / an image alive so that removals are owed, × pattern × alignment × size ×
+    //    stream; and the same amounts printed by commands that succeed
+    let rb = |inner: Vec<Act>| Act::Rebuild(1, inner);
+    // (tree, fault script, kind word of the output rule)
+    let paths: Vec<(&str, Vec<Act>, &str, &str)> = vec![
+        ("pack build", vec![], "pb.a.1", "pb.a"),
+        ("pack build of a rebuild", vec![st(&["LN"]), rb(vec![])], "pb.f2.1", "pb.f2"),
+        ("docker run --detach (start_container)", vec![st(&[])], "rd.a.125", "rd.a"),
+        ("docker run (run_shell_command)", vec![st(&["LN"]), sh()], "rr.a.1", "rr.a"),
+        ("docker run (run_shell_command) in a rebuild", vec![rb(vec![sh()])], "rr.a.127", "rr.a"),
+        ("docker logs (logs_now)", vec![st(&["LN"])], "ln.a.1", "ln.a"),
+        ("docker logs --follow (logs_wait)", vec![st(&["LW"])], "lf.a.1", "lf.a"),
+        ("docker exec (shell_exec)", vec![st(&["LN", "E"])], "ex.a.1", "ex.a"),
+        ("docker exec of the 2nd container of a rebuild", vec![st(&["E"]), rb(vec![st(&["E"])])], "ex.c2.2", "ex.c2"),
+        ("docker port", vec![st(&["P"])], "po.a.1", "po.a"),
+        // a failing `docker port` panics with the container's logs in the message: `logs_now()` is called for it and fails as well
+        ("docker logs for the message of a failed docker port", vec![st(&["P"])], "po.a.1+ln.a.1", "ln.a"),
+        ("pack sbom download", vec![st(&[]), Act::Sbom], "sb.a.1", "sb.a"),
+        // the removal itself failing as the only fault (no unwinding in progress): rmi / volume remove still owed
+        ("docker rm", vec![st(&[])], "rm.g3.1", "rm.g3"),
+    ];
+    let core_sizes = [16383usize, 16384, 16385, 16386, 16387, 16388];
+    let mut sizes = vec![0usize, 1, 4095, 4096, 4097, 8191, 8192, 8193, 32767, 32769, 65535, 65536, 65537];
+    sizes.extend(core_sizes);
+    if thorough { sizes.extend([12288, 16384 + 4096, 2 * 16384 + 1, 2 * 16384 + 2, 2 * 16384 + 3, 131071, 131073, 1048575, 1048576, 1048577, 1048578]); }
+    let streams = ['o', 'e', 'b'];
+    let mut rot = 0usize;
+    let out_case = |push: &mut dyn FnMut(&[BCfg], &Tree, String), acts: &[Act], fault: &str, okind: &str, stream: char, pat: char, shift: usize, size: usize, fl: usize| {
+        let base_inj = if fault.is_empty() { s("-") } else { format!("f:{fault}") };
+        push(&base, &Tree { cfg: 0, acts: acts.to_vec() }, format!("{base_inj}@{fl}~{okind}.{stream}{pat}{shift}.{size}"));
+    };
+    // 8a. every path × every multi-byte / mixed / invalid pattern × every alignment × the sizes around 16 KiB (stream rotating;
+    //     thorough: every stream)
+    for (_, acts, fault, okind) in &paths { for pat in ['2', '3', '4', 'm', 'i'] { for shift in 0..4 { for size in core_sizes {
+        if thorough { for st in streams { out_case(&mut push, acts, fault, okind, st, pat, shift, size, 0); } }
+        else { rot += 1; out_case(&mut push, acts, fault, okind, streams[rot % 3], pat, shift, size, 0); }
+    } } } }
+    // 8b. every pattern × every alignment × every size (paths and streams rotating; thorough: every path, 1 MiB included)
+    for pat in OUT_PATTERNS { for shift in 0..4 { for &size in &sizes {
+        if thorough { for (_, acts, fault, okind) in &paths { rot += 1; out_case(&mut push, acts, fault, okind, streams[rot % 3], pat, shift, size, rot % 3); } }
+        else { rot += 1; let (_, acts, fault, okind) = &paths[rot % paths.len()]; out_case(&mut push, acts, fault, okind, streams[(rot / paths.len()) % 3], pat, shift, size, rot % 3); }
+    } } }
+    // 8c. 1 MiB in the quick tier: one case per pattern (on 6 different paths)
+    if !thorough { for (i, pat) in OUT_PATTERNS.iter().enumerate() { let (_, acts, fault, okind) = &paths[(2 * i + 1) % paths.len()]; out_case(&mut push, acts, fault, okind, streams[i % 3], *pat, i % 4, 1048577 + i, 0); } }
+    // 8d. commands that succeed print these amounts (every command but `docker rm`, resp. every command): no fault at all; a
+    //     closure panic afterwards; a short failing command after long successful ones; the long output on another command
+    //     than the failing one
+    let quiet: Vec<(Vec<Act>, &str, &str)> = vec![
+        (vec![st(&["LN", "E", "P"]), sh(), Act::Sbom], "", "any.a"),
+        (vec![st(&["LN", "LW", "X"])], "", "nr.a"),
+        (vec![st(&["LN", "E"]), rb(vec![st(&["E"]), Act::Panic])], "", "any.a"),
+        (vec![st(&["LN", "E"])], "ex.a.1", "ln.a"),
+        (vec![st(&["E"]), sh()], "rr.a.1", "pb.a"),
+    ];
+    for (acts, fault, okind) in &quiet { for pat in OUT_PATTERNS { for (j, size) in [16385usize, 16386, 16387, 65537, 4097].into_iter().enumerate() {
+        if !thorough && j >= 3 && pat != '3' && pat != 'i' { continue; }
+        rot += 1; out_case(&mut push, acts, fault, okind, streams[rot % 3], pat, rot % 4, size, 0);
+    } } }
+    // 8e. seeded: random path, random output rules (1-2), random sizes near a power of two between 2^10 and 2^17 (thorough 2^20)
+    let n = if thorough { 1500 } else { 150 };
+    for i in 0..n {
+        let mut r = Rng::for_case(seed ^ 0x16e, i);
+        let (_, acts, fault, okind) = r.pick(&paths).clone();
+        let mut orules = vec![];
+        for j in 0..1 + r.below(2) {
+            let e = 10 + r.below(if thorough { 11 } else { 8 });
+            let size = ((1u64 << e) + r.below(9)).saturating_sub(4) as usize;
+            let kind = if j == 0 { okind } else { *r.pick(&["nr.a", "any.a", "pb.a", "lg.a", "ex.a", "rd.a"]) };
+            orules.push(format!("{kind}.{}{}{}.{size}", r.pick(&streams), r.pick(&OUT_PATTERNS), r.below(4)));
+        }
+        let fault = if r.chance(1, 6) { String::new() } else { format!("f:{}", fault.rsplit_once('.').unwrap().0) };
+        let inj = if fault.is_empty() { s("-") } else { format!("{fault}.{}", r.pick(&STATUSES)) };
+        push(&base, &Tree { cfg: 0, acts }, format!("{inj}@{}~{}", r.below(3), orules.join("+")));
     }
 }
 
